@@ -5,7 +5,8 @@ package main
 //                         the capacity test in Write, the rejections of MakeSecretConnection, the calls of shareEphPubKey
 //   connection.go         packet payload / capacity defaults, where nextPacketMsg sets EOF, that recvPacketMsg tests the
 //                         capacity before it appends
-//   libs/p2p/*.go         non-test uses of SecretConnection.RemotePubKey (is the authenticated key ever consulted?)
+//   libs/p2p/*.go         non-test uses of SecretConnection.RemotePubKey (is the authenticated key ever consulted?),
+//                         the top-level guards of Switch.addPeer in order
 
 import (
 	"bytes"
@@ -269,6 +270,28 @@ func c18Facts(e *env) (string, error) {
 		})
 		return nil
 	})
+	// --- Switch.addPeer: its top-level guards ("init; cond" of every top-level if), in source order
+	fd, err = e.funcDecl("libs/p2p/switch.go", "Switch", "addPeer")
+	if err != nil {
+		return "", err
+	}
+	var guards []string
+	for _, st := range fd.Body.List {
+		if is, ok := st.(*ast.IfStmt); ok {
+			g := c18Src(e, is.Cond)
+			if is.Init != nil {
+				g = c18Src(e, is.Init) + "; " + g
+			}
+			guards = append(guards, g)
+		}
+		// assignments to the peer-supplied cache of the node ID are listed too (where it is cleared matters)
+		if as, ok := st.(*ast.AssignStmt); ok && len(as.Lhs) == 1 && c18Src(e, as.Lhs[0]) == "peerNodeInfo.CachePeerID" {
+			guards = append(guards, c18Src(e, as))
+		}
+	}
+	fmt.Fprintf(&sb, "/-- top-level `if` guards of `Switch.addPeer` (\"init; cond\") and assignments to `peerNodeInfo.CachePeerID`, in source order -/\ndef addPeerGuards : List String := %s\n\n", c18StrList(guards))
+	e.facts = append(e.facts, fact{Module: "ConnFacts", Kind: "callorder", Name: "addPeer.guards", Value: guards, Pos: e.pos(fd)})
+
 	sort.Strings(users)
 	fmt.Fprintf(&sb, "/-- uses of `RemotePubKey` in non-test files of libs/p2p outside conn/ (where a peer's identity is decided) -/\ndef remotePubKeyUses : List String := %s\n", c18StrList(users))
 	e.facts = append(e.facts, fact{Module: "ConnFacts", Kind: "callsite", Name: "RemotePubKey", Value: users, Pos: "libs/p2p"})
